@@ -84,6 +84,7 @@ type ContractStore struct {
 	Lemmas []*Lemma
 	Wire   []string
 	Axioms []*Axiom
+	WireIgnore map[string][]string // type key -> field paths exempt from the inverse check
 }
 
 type Axiom struct {
@@ -158,7 +159,7 @@ func (cs *ContractStore) loadText(file, pkgPath string, lines []string) error {
 		if j := strings.IndexAny(t, " \t"); j >= 0 {
 			first = t[:j]
 		}
-		isStart := clauseKeywords[first] || first == "func" || first == "spec" || first == "lemma" || first == "package" || first == "const" || first == "wire" || first == "axiom"
+		isStart := clauseKeywords[first] || first == "func" || first == "spec" || first == "lemma" || first == "package" || first == "const" || first == "wire" || first == "axiom" || first == "wire-ignore"
 		if !isStart && len(stmts) > 0 {
 			stmts[len(stmts)-1].text += " " + t
 			continue
@@ -262,6 +263,17 @@ func (cs *ContractStore) loadText(file, pkgPath string, lines []string) error {
 				return fmt.Errorf("%s: %v", where, err)
 			}
 			cs.Axioms = append(cs.Axioms, &Axiom{PkgPath: pkgPath, Expr: e, Src: rest, Line: where})
+			cur = nil
+		case "wire-ignore":
+			parts := strings.Fields(rest)
+			if len(parts) < 2 {
+				return fmt.Errorf("%s: wire-ignore needs type and field path", where)
+			}
+			if cs.WireIgnore == nil {
+				cs.WireIgnore = map[string][]string{}
+			}
+			k := shortName(pkgPath) + "." + parts[0]
+			cs.WireIgnore[k] = append(cs.WireIgnore[k], parts[1])
 			cur = nil
 		case "wire":
 			cs.Wire = append(cs.Wire, pkgPath+"\x00"+rest)
